@@ -185,3 +185,106 @@ func ZZ_C19_iterator() {
 	}
 	nd.Assert(cnt == len(g.ents), "reverse_iteration_visits_every_entry")
 }
+
+// ZZ_C19_immutable_delete: three puts with arbitrary keys and priorities (so
+// the deleted node may have two children, in any shape), then a delete: the
+// version retained from before the delete still answers — including ordered
+// traversal — as it did, and the new version answers like the map without the
+// key.
+func ZZ_C19_immutable_delete() {
+	nd.RandInts(3)
+	t := NewImmutable()
+	g := &zzGhost{}
+	for i := 0; i < 3; i++ {
+		k, v := nd.U8("key"), nd.U8("value")
+		t = t.Put([]byte{k}, []byte{v})
+		g.put(k, v)
+	}
+	before, gBefore := t, g.clone()
+	dk := nd.U8("deleteKey")
+	after := t.Delete([]byte{dk})
+	g.del(dk)
+	nd.Reach("deleted")
+	q := nd.U8("query")
+	zzAgree(before, gBefore, q, "version_before_delete")
+	zzAgree(after, g, q, "version_after_delete")
+}
+
+// ZZ_C19_range: an iterator limited to [start, limit) walks exactly the map
+// entries in that range, forwards and backwards (the limit key may itself be
+// stored).
+func ZZ_C19_range() {
+	nd.RandInts(3)
+	t := NewMutable()
+	g := &zzGhost{}
+	for i := 0; i < 3; i++ {
+		k, v := nd.U8("key"), nd.U8("value")
+		t.Put([]byte{k}, []byte{v})
+		g.put(k, v)
+	}
+	start, limit := nd.U8("start"), nd.U8("limit")
+	inRange := 0
+	for _, e := range g.ents {
+		if e.k >= start && e.k < limit {
+			inRange++
+		}
+	}
+	it := t.Iterator([]byte{start}, []byte{limit})
+	cnt, prev := 0, -1
+	for ok := it.First(); ok; ok = it.Next() {
+		k := it.Key()[0]
+		nd.Assert(k >= start && k < limit && int(k) > prev && g.find(k) >= 0, "range_walk_yields_map_entries_in_range_ascending")
+		prev = int(k)
+		cnt++
+	}
+	nd.Assert(cnt == inRange, "range_walk_visits_every_entry_in_range")
+	cnt, prev = 0, 256
+	for ok := it.Last(); ok; ok = it.Prev() {
+		k := it.Key()[0]
+		nd.Assert(k >= start && k < limit && int(k) < prev, "reverse_range_walk_is_descending_in_range")
+		prev = int(k)
+		cnt++
+	}
+	nd.Assert(cnt == inRange, "reverse_range_walk_visits_every_entry_in_range")
+	nd.Reach("walked")
+}
+
+// ZZ_C19_reseek: after the treap is updated under a positioned iterator,
+// ForceReseek + Next continues with the smallest key greater than the one the
+// iterator stood on.
+func ZZ_C19_reseek() {
+	nd.RandInts(4)
+	t := NewMutable()
+	g := &zzGhost{}
+	for i := 0; i < 3; i++ {
+		k, v := nd.U8("key"), nd.U8("value")
+		t.Put([]byte{k}, []byte{v})
+		g.put(k, v)
+	}
+	it2 := t.Iterator(nil, nil)
+	pos := nd.U8("position")
+	if !it2.Seek([]byte{pos}) {
+		return
+	}
+	at := it2.Key()[0]
+	nk, nv := nd.U8("newKey"), nd.U8("newValue")
+	t.Put([]byte{nk}, []byte{nv})
+	g.put(nk, nv)
+	it2.ForceReseek()
+	next := -1
+	for _, e := range g.ents {
+		if e.k > at && (next < 0 || int(e.k) < next) {
+			next = int(e.k)
+		}
+	}
+	ok := it2.Next()
+	nd.Reach("reseeked")
+	nd.Assert(ok == (next >= 0), "next_after_reseek_finds_iff_a_greater_key_exists")
+	if ok && next >= 0 {
+		nd.Assert(int(it2.Key()[0]) == next, "next_after_reseek_is_the_smallest_greater_key")
+		// and keeps walking in order
+		if it2.Next() {
+			nd.Assert(int(it2.Key()[0]) > next, "walk_after_reseek_stays_ascending")
+		}
+	}
+}
